@@ -232,6 +232,10 @@ def match_known(f, known):
             continue
         if "after" in k and f.get("after") not in k["after"]:
             continue
+        if "causes_allowed" in k:
+            cs = (f.get("detail") if isinstance(f.get("detail"), dict) else {}).get("causes") or []
+            if not cs or not set(cs) <= set(k["causes_allowed"]):
+                continue
         if "cause" in k and (f.get("detail") if isinstance(f.get("detail"), dict) else {}).get("cause") != k["cause"]:
             continue
         return k
